@@ -98,3 +98,13 @@ func vGhostAtF(tag string, i int) float64 {
 	}
 	return 0
 }
+
+// vTextID: identity of a string's content (native: a hash).
+func vTextID(s string) int {
+	h := 1469598103934665603
+	for i := 0; i < len(s); i++ {
+		h = (h ^ int(s[i])) * 1099511628211
+	}
+	return h
+}
+func vTextCUU(s string) int { return 0 }
